@@ -91,7 +91,7 @@ def special_cases():
 def stream(ctx, g):
     out = []
     nmax = 12 if not ctx.thorough else 40
-    reps = 5 if not ctx.thorough else 16
+    reps = 5 if not ctx.thorough else 40
     tols = [1e-7, 1e-5, 1e-8, 1e-3]
     for rep in range(reps):
         ns = list(range(1, nmax + 1)) if not ctx.thorough else [1, 2, 3, 4, 5, 6, 8, 10, 12, 16, 20, 25, 32, 40]
